@@ -120,6 +120,34 @@ Section WorldProofs.
     find_import st from p = if exists_ p then Some p else None.
   Proof. intros st from p H. unfold Import.find_import. rewrite H. reflexivity. Qed.
 
+  (* virtual sources (-e, stdin, --ext-code, --tla-code) have no importer directory *)
+  Lemma virtual_no_importer_dir : forall st sid r,
+    nthN (s_sources st) sid = Some (r, false) -> from_dir st (Some sid) = None.
+  Proof. intros st sid r H. unfold from_dir. rewrite H. reflexivity. Qed.
+
+  Theorem virtual_bases_are_search_paths : forall st sid r,
+    nthN (s_sources st) sid = Some (r, false) -> bases st (Some sid) = s_search st.
+  Proof. intros st sid r H. unfold bases. rewrite (virtual_no_importer_dir _ _ _ H). reflexivity. Qed.
+
+  (* ... and still an absolute import needs no base directory at all: it resolves
+     (or not) by its own existence, also with an empty search path list *)
+  Theorem absolute_bypass_virtual : forall st sid r p,
+    nthN (s_sources st) sid = Some (r, false) ->
+    s_search st = [] ->
+    is_absolute p = true ->
+    find_import st (Some sid) p = if exists_ p then Some p else None.
+  Proof. intros st sid r p _ _ H. apply absolute_bypass. assumption. Qed.
+
+  Theorem virtual_relative_needs_J : forall st sid r p,
+    nthN (s_sources st) sid = Some (r, false) ->
+    s_search st = [] ->
+    is_absolute p = false ->
+    find_import st (Some sid) p = None.
+  Proof.
+    intros st sid r p Hv Hs Hrel. apply search_none; [assumption|].
+    rewrite (virtual_bases_are_search_paths _ _ _ Hv), Hs. constructor.
+  Qed.
+
   Theorem resolution_deterministic : forall st1 st2 from1 from2 p,
     s_search st1 = s_search st2 ->
     from_dir st1 from1 = from_dir st2 from2 ->
@@ -434,6 +462,28 @@ Section InvProofs.
         * apply nthN_app_some. assumption.
   Qed.
 
+  Lemma load_virt_good : forall repr data, good (fun st => load_virt_file prog_of st repr data).
+  Proof.
+    intros repr data st (I1 & I2 & I3 & I4). unfold load_virt_file.
+    destruct (prog_of data) as [pr|]; cbn [fst].
+    - split.
+      + unfold inv, loaded_cps, evaled, cached, thunk; cbn [s_log s_cache s_thunks].
+        fold (loaded_cps st). fold (evaled st). repeat split; auto.
+        intros x Hx. destruct (I4 _ Hx) as (n & l & Hd). exists n, l. apply nthN_app_some. assumption.
+      + unfold le, cached, thunk, evaled; cbn [s_log s_cache s_thunks]. fold (evaled st).
+        repeat split; auto.
+        * intros x (n & l & Hd). exists n, l. apply nthN_app_some. assumption.
+        * apply nthN_app_some. assumption.
+    - split.
+      + unfold inv, loaded_cps, evaled, cached, thunk; cbn [s_log s_cache s_thunks flat_map app].
+        fold (loaded_cps st). fold (evaled st). repeat split; auto.
+        intros x Hx. destruct (I4 _ Hx) as (n & l & Hd). exists n, l. apply nthN_app_some. assumption.
+      + unfold le, cached, thunk, evaled; cbn [s_log s_cache s_thunks flat_map app]. fold (evaled st).
+        repeat split; auto.
+        * intros x (n & l & Hd). exists n, l. apply nthN_app_some. assumption.
+        * apply nthN_app_some. assumption.
+  Qed.
+
   Lemma cb_import_good : forall from p, good (fun st => cb_import fs canon prog_of st from p).
   Proof.
     intros from p st Hi. unfold Import.cb_import.
@@ -606,6 +656,17 @@ Section InvProofs.
     apply manifest_good. assumption.
   Qed.
 
+  Lemma run_virtual_inv : forall fuel jpaths repr data,
+    inv (fst (run_virtual fs canon prog_of fuel jpaths repr data)).
+  Proof.
+    intros fuel jpaths repr data. unfold run_virtual.
+    pose proof (load_virt_good repr data (cli_session jpaths) (inv_new _)) as [H1 _].
+    destruct (load_virt_file prog_of (cli_session jpaths) repr data) as [st [w|sid]]; cbn [fst] in *; [assumption|].
+    pose proof (force_good fuel sid st H1) as [H2 _].
+    destruct (force fs canon prog_of fuel sid st) as [st' []]; cbn [fst] in *; try assumption.
+    apply manifest_good. assumption.
+  Qed.
+
   (* in every run, whatever the tree, the options and the outcome: no canonical
      path is loaded twice and no file is evaluated twice *)
   Theorem loaded_once : forall fuel jpaths main,
@@ -615,6 +676,11 @@ Section InvProofs.
   Theorem evaluated_once : forall fuel jpaths main,
     NoDup (evaled (fst (run_main fs canon prog_of fuel jpaths main))).
   Proof. intros. apply run_main_inv. Qed.
+
+  Theorem once_virtual : forall fuel jpaths repr data,
+    let st := fst (run_virtual fs canon prog_of fuel jpaths repr data) in
+    NoDup (loaded_cps st) /\ NoDup (evaled st).
+  Proof. intros. pose proof (run_virtual_inv fuel jpaths repr data) as (H1 & H2 & _). split; assumption. Qed.
 End InvProofs.
 
 (* ------------------------------------------------------------------ *)
@@ -740,6 +806,16 @@ Definition ex_canon : path -> path := ccanon ex_tree true ex_cwd.
 Definition ex_prog_of : list N -> option prog := fun b => assoc_bytes b ex_progs.
 Definition ex_run (jpaths : list string) (main : string) : session * outcome value ierr :=
   run_concrete ex_tree true ex_cwd ex_progs 30 (map str_of jpaths) (str_of main).
+
+(* the same world entered through a virtual source: rsjsonnet -e '<V>' *)
+Definition ex_vprog : prog :=
+  {| p_tag := str_of "v"; p_strict := [];
+     p_items := [IThisFile; IImportBin (str_of "/R/a/d.txt"); IImport (str_of "/R/x.libsonnet")] |}.
+Definition ex_vprog_rel : prog :=
+  {| p_tag := str_of "v"; p_strict := []; p_items := [IThisFile; IImport (str_of "x.libsonnet")] |}.
+Definition ex_run_virtual (jpaths : list string) (pr : prog) : session * outcome value ierr :=
+  run_concrete_virtual ex_tree true ex_cwd ((str_of "V", pr) :: ex_progs) 30 (map str_of jpaths)
+                       (str_of "<cmdline>") (str_of "V").
 
 Definition count_loaded (st : session) : nat :=
   length (filter (fun e => match e with EvLoaded _ _ _ => true | _ => false end) (s_log st)).
